@@ -1013,6 +1013,10 @@ class WSGIApp:
         new_submodel_element = HTTPApiDecoder.request_body(request,
                                                            model.SubmodelElement,  # type: ignore[type-abstract]
                                                            is_stripped_request(request))
+        if isinstance(parent, model.AnnotatedRelationshipElement) \
+                and not isinstance(new_submodel_element, model.DataElement):
+            # the NamespaceSet doesn't check this, the serialisations rely on it
+            raise BadRequest(f"{new_submodel_element!r} isn't a data element, can't be an annotation of {parent!r}!")
         try:
             parent.add_referable(new_submodel_element)
         except model.AASConstraintViolation as e:
